@@ -81,11 +81,13 @@ var liveDeadline = 20 * time.Second
 // ---- the shared world ----------------------------------------------------------------------
 
 type shared struct {
-	w      *sim.World
-	a      *sim.Node
-	hashes []types.Hash // hashes[h] = hash of A's momentum at height h (recorded while producing)
-	height uint64
-	early  []*nom.DetailedMomentum // early[h] = wire copy of A's momentum h for h in 2..earlyTop
+	w           *sim.World
+	a           *sim.Node
+	hashes      []types.Hash // hashes[h] = hash of A's momentum at height h (recorded while producing)
+	height      uint64
+	early       []*nom.DetailedMomentum // early[h] = wire copy of A's momentum h for h in 2..earlyTop
+	blockHome   map[types.Hash]uint64   // account block hash -> height of A's momentum that contains it
+	blockByHash map[types.Hash]*nom.AccountBlock
 	// a valid user block of A's pool that is in no momentum (never committed)
 	buildS float64
 }
@@ -158,8 +160,17 @@ func world() *shared {
 		}
 		s.height = a.Height()
 		s.early = make([]*nom.DetailedMomentum, earlyTop+1)
+		s.blockHome = map[types.Hash]uint64{}
+		s.blockByHash = map[types.Hash]*nom.AccountBlock{}
 		for h := uint64(2); h <= earlyTop; h++ {
 			s.early[h] = sim.WireMomentums([]*nom.DetailedMomentum{a.Detailed(h)})[0]
+			for _, b := range s.early[h].AccountBlocks {
+				s.blockHome[b.Hash] = h
+				s.blockByHash[b.Hash] = b
+				for _, d := range b.DescendantBlocks {
+					s.blockHome[d.Hash] = h
+				}
+			}
 		}
 		s.buildS = time.Since(t0).Seconds()
 		sh = s
